@@ -247,7 +247,7 @@ def set_center(data, origin, crop='maintain_size', axes=(0, 1), order=3,
     subpixel = np.zeros(2)
     origin_ = [None, None]
     for a in [0, 1]:
-        if origin[a] is None:
+        if origin[a] is None or a not in axes:
             axes.discard(a)
         else:
             # to absolute coordinates
